@@ -2,6 +2,7 @@
 /repo's current tree, over formulas x orderings x option sets and require that it never panics (exit code 101 /
 'panicked at').  Labelled bounded; never counted as proved."""
 import itertools
+import re
 import os
 import random
 import subprocess
@@ -124,3 +125,158 @@ def replay_case(repo, case):
         return None, err
     with tempfile.TemporaryDirectory(prefix="clisweep", dir=WORK) as tmp:
         return run_case(binary, c["formula"], c["ordering"], c["options"], c["channel"], tmp), ""
+
+
+# ------------------------------------------------------------------ C11, CLI half: orderings change the shape, not the meaning
+
+ORDER_FORMULAS = ["a & b", "a | -b & c", "a ^ b ^ c", "[a, b, c] = 1", "exists b # (a & b) | c", "forall a # a | b", "if a then b else c",
+                  "lfp X # a | (X & b)", "[a, b] <= [c]", "c => (b => a)", "-(a <=> c) | b", "a"]
+ORDER_FILES = ["a b c", "c b a", "b", "c a", "x a y b z c", "a a b", "c, b; a", "z", "b \"comment\" a", "X c"]
+
+
+def _table(stdout):
+    """parse `rsbdd -t` output into (header names, set of satisfying total assignments as frozensets of true names)"""
+    rows = [l for l in stdout.split("\n") if l.startswith("|")]
+    if len(rows) < 2:
+        return None
+    hdr = [c.strip() for c in rows[0].strip("|").split("|")]
+    names = hdr[:-1]
+    sat = set()
+    for l in rows[2:]:
+        cells = [c.strip() for c in l.strip("|").split("|")]
+        if len(cells) != len(hdr):
+            return None
+        if cells[-1] != "True":
+            continue
+        free = [i for i, c in enumerate(cells[:-1]) if c == "Any"]
+        for bits in itertools.product([False, True], repeat=len(free)):
+            asg = set(n for n, c in zip(names, cells[:-1]) if c == "True")
+            asg |= set(names[i] for i, bv in zip(free, bits) if bv)
+            sat.add(frozenset(asg))
+    return names, sat
+
+
+def _run(binary, args, tmp):
+    try:
+        p = subprocess.run([binary] + args, capture_output=True, timeout=20)
+    except subprocess.TimeoutExpired:
+        return None
+    return p.returncode, p.stdout.decode("utf-8", "replace"), p.stderr.decode("utf-8", "replace")
+
+
+def order_case(repo, case):
+    import json
+    c = json.loads(case)
+    global ORDER_FORMULAS, ORDER_FILES
+    sf, so = ORDER_FORMULAS, ORDER_FILES
+    try:
+        ORDER_FORMULAS, ORDER_FILES = [c["formula"]], [c["ordering"]]
+        r, n, err = sweep_order(repo, 0, 0)
+    finally:
+        ORDER_FORMULAS, ORDER_FILES = sf, so
+    return r, err
+
+
+def sweep_order(repo, budget, seed, binary=None):
+    """for every formula x ordering file: (1) the table under the ordering denotes the same set of satisfying assignments of the
+    same names as under the default order; (2) names listed in the file appear in the header in file order; (3) exporting the
+    order with -r and feeding it back with -o reproduces the identical table.  returns (found | None, checked, error)"""
+    import json
+    if binary is None:
+        binary, err = build_binary(repo)
+        if binary is None:
+            return None, 0, err
+    checked = 0
+    with tempfile.TemporaryDirectory(prefix="cliorder", dir=WORK) as tmp:
+        for f in ORDER_FORMULAS:
+            base = _run(binary, ["-t", "--evaluate=" + f], tmp)
+            if base is None or base[0] != 0:
+                continue
+            tb = _table(base[1])
+            if tb is None:
+                continue
+            for od in ORDER_FILES:
+                checked += 1
+                case = json.dumps({"formula": f, "ordering": od, "options": ["-t"], "channel": "order-roundtrip"})
+                op = os.path.join(tmp, "o.txt")
+                open(op, "w").write(od)
+                r1 = _run(binary, ["-t", "-o", op, "--evaluate=" + f], tmp)
+                if r1 is None:
+                    continue
+                if r1[0] == 101 or "panicked at" in r1[2]:
+                    return {"mode": "cliorder", "case": case, "expected": "a table", "actual": "panic: " + r1[2][:300]}, checked, ""
+                t1 = _table(r1[1])
+                if r1[0] != 0 or t1 is None:
+                    return {"mode": "cliorder", "case": case, "expected": "a table (the formula is valid input under any ordering)", "actual": f"exit {r1[0]}: {r1[2][:200]}"}, checked, ""
+                names = sorted(set(tb[0]) | set(t1[0]))
+                if sorted(tb[0]) != sorted(t1[0]) or tb[1] != t1[1]:
+                    return {"mode": "cliorder", "case": case, "expected": f"same function of the same names as the default order: columns {tb[0]}, {len(tb[1])} satisfying assignments",
+                            "actual": f"columns {t1[0]}, {len(t1[1])} satisfying assignments"}, checked, ""
+                listed = [w for w in re.findall(r"[\w']+", re.sub(r'"[^"]*"', " ", od))]
+                pos = [t1[0].index(n) for n in dict.fromkeys(listed) if n in t1[0]]
+                if pos != sorted(pos):
+                    return {"mode": "cliorder", "case": case, "expected": "columns of listed variables in file order", "actual": f"header {t1[0]}"}, checked, ""
+                r2 = _run(binary, ["-r", "-o", op, "--evaluate=" + f], tmp)
+                if r2 is None or r2[0] != 0:
+                    continue
+                exported = "\n".join(l for l in r2[1].split("\n") if l and not l.startswith("|"))
+                op2 = os.path.join(tmp, "o2.txt")
+                open(op2, "w").write(exported)
+                r3 = _run(binary, ["-t", "-o", op2, "--evaluate=" + f], tmp)
+                if r3 is None:
+                    continue
+                if r3[1] != r1[1]:
+                    return {"mode": "cliorder", "case": case, "expected": "feeding the exported order back reproduces the identical table",
+                            "actual": "tables differ:\n" + r1[1][:300] + "\n--- vs ---\n" + r3[1][:300]}, checked, ""
+    return None, checked, ""
+
+
+# ------------------------------------------------------------------ C07, CLI half: `rsbdd -m -t` prints exactly one satisfying row
+
+MODEL_FORMULAS = ORDER_FORMULAS + ["false", "true", "a & -a", "[a, b] > 2", "[a, b, c] >= 2", "exists a # a", "-a & -b", "a | b | c", "(a & b) | (c & d)"]
+
+
+def sweep_model(repo, budget, seed, binary=None):
+    import json
+    if binary is None:
+        binary, err = build_binary(repo)
+        if binary is None:
+            return None, 0, err
+    checked = 0
+    with tempfile.TemporaryDirectory(prefix="climodel", dir=WORK) as tmp:
+        for f in MODEL_FORMULAS:
+            for filt in ([], ["-f", "true"]):
+                checked += 1
+                case = json.dumps({"formula": f, "ordering": None, "options": ["-m", "-t"] + filt, "channel": "model"})
+                base = _run(binary, ["-t", "--evaluate=" + f], tmp)
+                mod = _run(binary, ["-m", "-t"] + filt + ["--evaluate=" + f], tmp)
+                if base is None or mod is None or base[0] != 0:
+                    continue
+                if mod[0] == 101 or "panicked at" in mod[2]:
+                    return {"mode": "climodel", "case": case, "expected": "a table", "actual": "panic: " + mod[2][:300]}, checked, ""
+                tb, tm = _table(base[1]), _table(mod[1])
+                if tb is None or tm is None:
+                    continue
+                rows_true = [l for l in mod[1].split("\n")[2:] if l.startswith("|") and l.rstrip().endswith("True  |")]
+                if len(tb[1]) == 0:
+                    if rows_true:
+                        return {"mode": "climodel", "case": case, "expected": "no satisfying row for an unsatisfiable formula", "actual": mod[1][:300]}, checked, ""
+                    continue
+                if len(rows_true) != 1:
+                    return {"mode": "climodel", "case": case, "expected": "exactly one satisfying row", "actual": mod[1][:400]}, checked, ""
+                if not tm[1] <= tb[1]:
+                    return {"mode": "climodel", "case": case, "expected": "the model row satisfies the formula", "actual": mod[1][:400]}, checked, ""
+    return None, checked, ""
+
+
+def model_case(repo, case):
+    import json
+    c = json.loads(case)
+    global MODEL_FORMULAS
+    sf = MODEL_FORMULAS
+    try:
+        MODEL_FORMULAS = [c["formula"]]
+        r, n, err = sweep_model(repo, 0, 0)
+    finally:
+        MODEL_FORMULAS = sf
+    return r, err
